@@ -472,7 +472,7 @@ pub fn run(thorough: bool) -> Outcome {
     // (3) framings: every base under Ethernet / raw / loopback must give the same rendering
     for b in &bases {
         // loopback framing as the analyzers document it: the 4-byte NULL header `1e 00 00 00`
-        let mut links = vec![Link::Ethernet, Link::RawIp, Link::Null(0x1e)];
+        let mut links = vec![Link::Ethernet, Link::RawIp, Link::Null(0x1e), Link::EthernetTrailer];
         // Ethernet frames whose MAC addresses another framing would also accept
         links.extend(pkt::AMBIGUOUS_MACS.iter().map(|(_, m)| Link::EthernetMacs(*m)));
         for link in links {
@@ -534,7 +534,7 @@ pub fn run(thorough: bool) -> Outcome {
     total = total.merge(mtu_labels());
     Outcome {
         report: total,
-        rule: "frames built from descriptions: every dimension (flags x seq/ack/urg zero-ness; TTL; DF/MF/reserved/ID/ECN/fragment/flow label; every single bit of flow label, IP id, sequence and acknowledgement numbers, urgent pointer, fragment offset and both timestamp values; IHL; payload; window x MSS x TS) over its whole domain at 6 base frames (v4/v6 x SYN/SYN+ACK/ACK), all pairs of alphabet values across dimensions, 3 framings, all 65536 windows x MSS alphabet x TS x version, DFS over option sequences with three alignment paddings, EOL at every position with every padding, the (kind,length,offset,tail) space of one option; link labels: 5 databases whose [mtu] groups are unsorted / repeated / shared between groups x every MSS 0..65535 x IPv4/IPv6 SYN (label of the first group in file order that lists the MTU); through the TCP pipeline and the unified analyzer; distinct = distinct (signature text, MTU, role) outcomes".into(),
+        rule: "frames built from descriptions: every dimension (flags x seq/ack/urg zero-ness; TTL; DF/MF/reserved/ID/ECN/fragment/flow label; every single bit of flow label, IP id, sequence and acknowledgement numbers, urgent pointer, fragment offset and both timestamp values; IHL; payload; window x MSS x TS) over its whole domain at 6 base frames (v4/v6 x SYN/SYN+ACK/ACK), all pairs of alphabet values across dimensions, 4 framings (incl. Ethernet padding and a captured frame check sequence behind the IP packet), all 65536 windows x MSS alphabet x TS x version, DFS over option sequences with three alignment paddings, EOL at every position with every padding, the (kind,length,offset,tail) space of one option; link labels: 5 databases whose [mtu] groups are unsorted / repeated / shared between groups x every MSS 0..65535 x IPv4/IPv6 SYN (label of the first group in file order that lists the MTU); through the TCP pipeline and the unified analyzer; distinct = distinct (signature text, MTU, role) outcomes".into(),
         exhaustive: true,
         bounds: json!({"option_sequences": seqs.len(), "max_options_in_sequence": if thorough {4} else {3}, "single_option_space": space.len(), "window_sweep_mss": mss_sweep.len()}),
     }
